@@ -92,7 +92,20 @@ def run(chk, replay=None):
     sp_rates = [sum(row) for row in RATES]
     mg_rates = [RATES[0][0] + RATES[1][0], RATES[0][1] + RATES[1][1]]
 
+    base_total = float(numpy.array(RATES).sum())
+
+    def read_fscale():
+        """the forecast's scale factor in halves, read back from the object (0 = none of 1/2, 1, 2)"""
+        tot = guarded(lambda: float(fc.sum()))
+        dat = guarded(lambda: numpy.array(fc.data, dtype=float))
+        for h in (1, 2, 4):
+            if not isinstance(tot, Raised) and not isinstance(dat, Raised) and abs(tot - base_total * h / 2) <= 1e-12 * base_total and \
+                    numpy.allclose(dat, numpy.array(RATES) * h / 2, rtol=1e-13, atol=0):
+                return h
+        return 0
+
     def run_session(case):
+        fc.scale(1.0)
         init = list(case['init'])
         cat = CSEPCatalog(data=[event(e, k) for k, e in enumerate(init)], name='s')
         doc = None
@@ -125,7 +138,8 @@ def run(chk, replay=None):
                 r = guarded(pe.number_test, fc, cat)
                 if not isinstance(r, Raised):
                     n = r.observed_statistic
-                    last = {'k': 'n', 'v': [int(n)]} if float(n) == int(n) else {'k': 'malformed', 'v': []}
+                    last = {'k': 'n', 'v': [int(n), read_fscale()]} if float(n) == int(n) else {'k': 'malformed', 'v': []}
+                    numeric.append((si, 'ntest', [int(n), read_fscale()], tuple(float(x) for x in r.quantile), True))
             elif op in ('ltest', 'stest', 'mtest'):
                 fn = {'ltest': pe.likelihood_test, 'stest': pe.spatial_test, 'mtest': pe.magnitude_test}[op]
                 had_region = cat.region is not None
@@ -142,7 +156,9 @@ def run(chk, replay=None):
                     else:
                         v = [int(x) for x in numpy.asarray(a).reshape(-1)]
                         last = {'k': kind, 'v': v}
-                        numeric.append((si, op, v, float(r.observed_statistic), had_region))
+                        numeric.append((si, op, v + [read_fscale()], float(r.observed_statistic), had_region))
+            elif op in ('scale_half', 'scale_one', 'scale_two'):
+                r = guarded(fc.scale, {'scale_half': 0.5, 'scale_one': 1.0, 'scale_two': 2.0}[op])
             elif op == 'to_dict':
                 r = guarded(cat.to_dict)
                 if not isinstance(r, Raised):
@@ -161,7 +177,7 @@ def run(chk, replay=None):
             chk.count()
             if isinstance(r, Raised):
                 last = {'k': 'raised', 'v': []}
-            steps.append({'op': op, 'cat': project(cat), 'region': cat.region is not None, 'last': last,
+            steps.append({'op': op, 'cat': project(cat), 'region': cat.region is not None, 'last': last, 'fscale': read_fscale(),
                           'note': r.text if isinstance(r, Raised) else ''})
         if os.path.exists(path):
             os.remove(path)
@@ -170,9 +186,25 @@ def run(chk, replay=None):
     def check_numeric(numeric):
         bad = []
         for si, op, v, got, had_region in numeric:
+            v, h = v[:-1], v[-1]
+            if h == 0:
+                bad.append({'step': si, 'op': op, 'why': 'forecast scale is none of 1/2, 1, 2'})
+                continue
+            f = h / 2.0
+            if op == 'ntest':
+                # exact Poisson tails for the scaled total
+                mean = mpmath.mpf(base_total) * h / 2
+                n_ = v[0]
+                pmf = [mpmath.exp(-mean + k * mpmath.log(mean) - mpmath.loggamma(k + 1)) for k in range(n_ + 1)]
+                d2 = float(sum(pmf))
+                d1 = float(1 - sum(pmf[:-1])) if n_ > 0 else 1.0
+                chk.count()
+                if abs(got[0] - d1) > 1e-9 or abs(got[1] - d2) > 1e-9:
+                    bad.append({'step': si, 'op': op, 'n': n_, 'scale': f, 'got': list(got), 'expected': [d1, d2]})
+                continue
             n = sum(v)
             if op == 'ltest':
-                want = exact_ll(v, flat_rates)
+                want = exact_ll(v, [x * f for x in flat_rates])
             elif n == 0:
                 continue
             elif op == 'stest':
@@ -189,7 +221,7 @@ def run(chk, replay=None):
         steps, numeric = run_session(d['session'])
         chk.sample({'replayed': d['session'], 'steps': steps})
         bad = check_numeric(numeric)
-        tr = {'init': d['session']['init'], 'steps': [{k: s[k] for k in ('op', 'cat', 'region', 'last')} for s in steps]}
+        tr = {'init': d['session']['init'], 'steps': [{k: s[k] for k in ('op', 'cat', 'region', 'last', 'fscale')} for s in steps]}
         acc, rej = chk.validate_traces('TracePyCSEP', 'Trace_PyCSEP.cfg', [tr], chunk=10)
         if rej or bad:
             chk.violation(replay['signature'], dict(d, steps=steps, numeric=bad))
@@ -198,7 +230,7 @@ def run(chk, replay=None):
     traces, metas = [], []
     for case in cases:
         steps, numeric = run_session(case)
-        traces.append({'init': list(case['init']), 'steps': [{k: s[k] for k in ('op', 'cat', 'region', 'last')} for s in steps]})
+        traces.append({'init': list(case['init']), 'steps': [{k: s[k] for k in ('op', 'cat', 'region', 'last', 'fscale')} for s in steps]})
         metas.append((case, steps))
         h = case['hist']
         if any(a in ('to_dict', 'write_ascii') and b in ('from_dict', 'load_ascii') for a, b in zip(h, h[1:])) or \
